@@ -69,6 +69,8 @@ THEOREMS = [
     "PV.Prog.annassign_bare_name",
     "PV.Prog.annassign_paren_not_simple",
     "PV.Prog.annassign_paren_name_not_simple",
+    "PV.Prog.match_subject_spec",
+    "PV.Prog.match_subject_trailing_comma",
     # (e) printer round trip on a fragment
     "PV.Prog.render_parse_partial",
 ]
